@@ -9,26 +9,31 @@ Local Open Scope R_scope.
 (** a lens with surfaces at z = 0 and 5, image at 50, EPD 10, entrance pupil at z = 3 *)
 Definition ex_pos : list R := [0; 0; 5; 50].
 
-Lemma ex_offset : offset 10 ex_pos = 10.
+(** infinite object, angle fields: the generator returns a ray, the hypotheses of launch_infinite_angle hold and the
+    ray travels forward *)
+Example ex_infinite_angle :
+  exists r, k_rg_generate ROps 0 1 0 (1/2) (55/100) 0 0 5 true "angle" false 3 10 ex_pos 0 0 0 "EPD" 1 10 "ignore" false = Some r
+            /\ getZ (O := ROps) ex_pos 1 = 0 /\ 0 < 10 /\ 0 < r_N r.
 Proof.
-  unfold offset, k_rg_z_offset, ex_pos, min_list, sliceZ. cbn. rops.
-  change (Pos.to_nat 2) with 2%nat. change (Pos.to_nat 1) with 1%nat. cbn [firstn skipn fold_left].
-  assert (E : Rltb 5 0 = false) by (apply Rltb_false; lra). rewrite E. ring.
+  eexists. split; [reflexivity|]. split; [reflexivity|]. split; [lra|].
+  match goal with |- 0 < r_N ?r => pose proof (launch_infinite_angle 0 1 0 (1/2) (55/100) 0 0 5 3 10 0 0 0 1 10 ex_pos "EPD" "ignore" false r eq_refl eq_refl ltac:(lra)) as H end.
+  destruct H as (_ & _ & Hpos & _). exact Hpos.
 Qed.
 
-(** infinite object, angle fields: the generator returns a ray and the hypotheses of launch_infinite_angle hold *)
-Example ex_infinite_angle :
-  exists r, k_rg_generate ROps 0 1 0 (1/2) (55/100) 0 0 5 true "angle" false 3 10 ex_pos 0 0 0 "EPD" 10 "ignore" false = Some r
-            /\ getZ (O := ROps) ex_pos 1 = 0 /\ offset 10 ex_pos + 3 <> 0 /\ 0 < r_N r.
+(** the prescription of the former finding (stop 95 behind an f = 50 singlet, entrance pupil at z = -100, left of the old
+    launch plane z = -10): since fix 45f857e the ray is launched forward from a plane left of the pupil *)
+Example ex_pupil_left_of_lens :
+  exists r, k_rg_generate ROps 0 1 0 (1/2) (55/100) 0 0 5 true "angle" false (-100) 10 [0; 0; 5; 100; 120] 0 0 0 "EPD" 1 10 "ignore" false = Some r
+            /\ 0 < r_N r /\ r_z r + 10 <= -100.
 Proof.
-  eexists. split; [reflexivity|]. split; [reflexivity|]. split; [rewrite ex_offset; lra|].
-  match goal with |- 0 < r_N ?r => pose proof (launch_infinite_angle 0 1 0 (1/2) (55/100) 0 0 5 3 10 0 0 0 10 ex_pos "EPD" "ignore" false r eq_refl eq_refl) as H end.
-  rewrite ex_offset in H. destruct (H ltac:(lra)) as (_ & _ & _ & _ & Hpos & _). apply Hpos. lra.
+  eexists. split; [reflexivity|].
+  match goal with |- 0 < r_N ?r /\ _ => pose proof (launch_infinite_angle 0 1 0 (1/2) (55/100) 0 0 5 (-100) 10 0 0 0 1 10 [0; 0; 5; 100; 120] "EPD" "ignore" false r eq_refl eq_refl ltac:(lra)) as H end.
+  destruct H as (_ & _ & Hpos & _ & Hz & _). split; assumption.
 Qed.
 
 (** finite object, height fields, on-axis field: the aim-point hypothesis (aim point distinct from the origin) holds *)
 Example ex_finite_height :
-  exists r, k_rg_generate ROps 0 0 0 1 (55/100) 0 0 0 false "object_height" false 3 10 ex_pos 1 0 (-100) "EPD" 10 "ignore" false = Some r
+  exists r, k_rg_generate ROps 0 0 0 1 (55/100) 0 0 0 false "object_height" false 3 10 ex_pos 1 0 (-100) "EPD" 1 10 "ignore" false = Some r
             /\ (0 * (1 - 0) * 10 / 2 - r_x r) * (0 * (1 - 0) * 10 / 2 - r_x r) +
                (1 * (1 - 0) * 10 / 2 - r_y r) * (1 * (1 - 0) * 10 / 2 - r_y r) + (3 - r_z r) * (3 - r_z r) <> 0.
 Proof.
@@ -40,16 +45,21 @@ Proof.
   lra.
 Qed.
 
-(** telecentric object space with NA = 1/10 is traced *)
+(** telecentric object space with NA = 1/10 in a medium of index 4/3 is traced; the marginal ray has sin(theta) = 3/40 *)
 Example ex_telecentric :
-  exists r, k_rg_generate ROps 0 1 0 1 (55/100) 0 0 4 false "object_height" true 0 0 ex_pos 1 0 (-100) "objectNA" (1/10) "ignore" false = Some r
-            /\ 0 < 1/10 < 1.
-Proof. eexists. split; [reflexivity|lra]. Qed.
+  exists r, k_rg_generate ROps 0 1 0 1 (55/100) 0 0 4 false "object_height" true 0 0 ex_pos 1 0 (-100) "objectNA" (4/3) (1/10) "ignore" false = Some r
+            /\ 0 < (1/10) / (4/3) < 1 /\ r_M r = 3/40.
+Proof.
+  eexists. split; [reflexivity|]. split; [lra|].
+  match goal with |- r_M ?r = _ =>
+    pose proof (launch_telecentric 0 1 0 1 (55/100) 0 0 4 0 0 1 0 (-100) (4/3) (1/10) ex_pos "ignore" false r eq_refl ltac:(lra)) as H end.
+  destruct H as (_ & _ & _ & _ & _ & _ & _ & _ & Hm & _). destruct (Hm eq_refl eq_refl eq_refl) as [_ HM]. lra.
+Qed.
 
 (** the cell (infinite object, height fields) is rejected; a valid cell is not *)
 Example ex_table :
   rejected true "object_height" false "EPD" = true /\ rejected false "object_height" true "objectNA" = false /\
-  rejected true "angle" false "imageFNO" = false.
+  rejected true "angle" false "imageFNO" = false /\ rejected true "angle" false "objectNA" = true.
 Proof. repeat split. Qed.
 
 Example ex_counts : hexapolar_count 6 = 127%Z /\ cross_count 5 = 10%Z /\ gq_count false 6 = 18%Z /\ gq_rings_ok 7 = false.
